@@ -15,7 +15,7 @@ ID = "C01"
 
 
 def cases(tier, seed):
-    n = 4000 if tier == "quick" else 400000
+    n = 12000 if tier == "quick" else 1500000
     for k in range(n):
         yield {"gen": "walk", "k": k}
     # exhaustive small scope is enumerated after the random cases (thorough only)
